@@ -447,6 +447,9 @@ class SInt(Sym):
     def __mod__(self, o):
         return self._bin(o, "%")
 
+    def __rmod__(self, o):
+        return self._bin(o, "%", True)
+
     def __neg__(self):
         return SInt(_arith("-", z3.IntVal(0), self.v))
 
